@@ -359,9 +359,12 @@ func (c *fnCtx) callTranslated(cal *fnFunc, v *ast.CallExpr, pre *[]fnBind, want
 		}
 		if x.typ.name == "?" {
 			x.typ = &fnType{k: "raw", name: e.typ}
+			tset := map[string]bool{}
 			for _, tp := range e.tps {
 				x.typ.params = append(x.typ.params, &fnType{k: "elem", name: tp})
+				tset[tp] = true
 			}
+			c.setExtraType(e.key, e.typ, tset) // for the callers of this function in turn
 		}
 		s += " " + x.name
 	}
@@ -652,6 +655,9 @@ func (c *fnCtx) stmt(s ast.Stmt, k func() term) term {
 		return c.assign(v, k)
 	case *ast.DeclStmt:
 		gd, ok := v.Decl.(*ast.GenDecl)
+		if ok && gd.Tok == token.TYPE {
+			return k() // a struct type of the function: registered by localTypes
+		}
 		if !ok || gd.Tok != token.VAR {
 			c.lostAt(v, "declaration")
 		}
@@ -935,6 +941,12 @@ func (c *fnCtx) assign(v *ast.AssignStmt, k func() term) term {
 		}
 		vals = append(vals, x)
 		ts = append(ts, t)
+	}
+	for _, t := range ts {
+		if t.k == "slice" || t.k == "view" || t.k == "sres" {
+			c.slicePermutation(v)
+			break
+		}
 	}
 	if !anyIdx {
 		var pats []string
@@ -1221,11 +1233,13 @@ func (c *fnCtx) assign1(st *ast.AssignStmt, l, r ast.Expr, k func() term) term {
 					}
 					return wrap(pre, k())
 				}
-				at, ok := call.Args[0].(*ast.ArrayType)
-				if !ok || at.Len != nil || len(call.Args) < 2 || len(call.Args) > 3 {
+				if at, ok := call.Args[0].(*ast.ArrayType); (ok && at.Len != nil) || len(call.Args) < 2 || len(call.Args) > 3 {
 					c.lostAt(st, "make")
 				}
-				t := c.goType(call.Args[0])
+				t := c.goType(call.Args[0]) // []T, or a type parameter Slice ~[]T
+				if t.k != "slice" {
+					c.lostAt(st, "make of %s", src(call.Args[0]))
+				}
 				n, _ := c.expr(call.Args[1], &pre)
 				cp := n
 				if len(call.Args) == 3 {
@@ -1279,8 +1293,14 @@ func (c *fnCtx) assign1(st *ast.AssignStmt, l, r ast.Expr, k func() term) term {
 		return wrap(pre, k())
 	}
 	e, t := c.expr(r, &pre)
-	if t.k == "slice" || t.k == "view" {
-		if _, isLit := r.(*ast.CompositeLit); !isLit {
+	if t.k == "slice" || t.k == "view" || t.k == "sres" {
+		fresh := false
+		if call, isCall := r.(*ast.CallExpr); isCall && t.k == "slice" && st.Tok == token.DEFINE {
+			// the result of a translated function that returns a slice of its own making (not a
+			// window of an argument: that would be a view)
+			fresh = c.g.calleeOf(c.fn, call) != nil
+		}
+		if _, isLit := r.(*ast.CompositeLit); !isLit && !fresh {
 			c.lostAt(st, "assignment of a slice value %s (aliasing)", src(r))
 		}
 	}
